@@ -370,3 +370,5 @@ def _copy_completeness(ctx, m):
 
     # shared with C09.a: every path of projection() returns freshly summed arrays
     ctx.borrow("C09", ("projection:every-path-sums",), "C12.a")
+    ctx.borrow("C14", ("Histogram1D.copy:statistics",), "C12.a")
+    ctx.borrow("C06", ("Histogram2D.partial_normalize:",), "C12.d", floor=2)
